@@ -14,7 +14,15 @@ def run_c07(tier):
     for variant in (["expl"] if tier == "quick" else ["expl", "expl+checks"]):
         for u, (uni, tpath, st, states, upath) in tables.items():
             trace = os.path.join(OUT, "tlc", "%s_%s_%s.ndjson" % (prop, u, variant.replace("+", "_")))
-            summ = jsonl(run_bin(variant, "ex_record", [upath, tpath, trace, maxpairs]))[0]
+            recs = jsonl(run_bin(variant, "ex_record", [upath, tpath, trace, maxpairs]))
+            summ = [r for r in recs if r["kind"] == "summary"][0]
+            for r in recs:
+                if r["kind"] == "finding" and r["prop"] == "*":
+                    r["prop"] = prop
+                    findings.append(r)
+            if summ.get("hang"):
+                summ.update({"universe": u, "states": 0, "proofs": 0, "explain_panics": 0, "histories_aborted_by_build_panics": 0})
+                open(trace, "a").close()
             summ["variant"] = variant
             summs.append(summ)
             cfg = open(os.path.join(SPEC, "TraceProofs.cfg")).read()
